@@ -3,9 +3,9 @@
 # scheduling points) into $1/inst and print that directory as an extra (replacing) overlay group.
 set -e
 W=$1
-here=$(cd "$(dirname "$0")" && pwd)
-. /verif/env.sh
+here=$(cd "$(dirname "$0")" && pwd); root=$(cd "$here/../../.." && pwd)
+. "$root/env.sh"
 rm -rf "$W/inst"; mkdir -p "$W/inst"
-( cd /verif/mc && $GO build -o "$W/inst.bin" ./inst ) >&2
+( cd "$root/mc" && $GO build -o "$W/inst.bin" ./inst ) >&2
 "$W/inst.bin" -repo "$VERIF_REPO" -out "$W/inst" -alt "${VERIF_EXTRA_OVERLAY:-}" -heavy "$(tr '\n' ',' < $here/HEAVY)" $(cat $here/PACKAGES) >&2
 echo "$W/inst"
